@@ -24,6 +24,8 @@ import (
 //	fin   : what the handler returns: OK | E<code>:<word> (status error) | P<word> (plain, non-status error)
 //	cli   : client ops, comma separated
 //	          s<n> send message n   c CloseSend   r RecvMsg   h Header()   t Trailer()   x cancel ctx   d wait for deadline
+//	          w (after x, real runs only; not sent to the model) wait until the handler has returned: the client's
+//	            next read happens after the handler has unwound from the abort instead of racing with it
 type scase struct {
 	Shape string `json:"shape"`
 	Out   string `json:"out"`
@@ -39,13 +41,24 @@ type scase struct {
 	// (modelled: the driver gets the flag; the legacy model answers with the overwritten payload 99).
 	// Async: the client's cancel is NOT held back until the handler is quiescent: it fires at its script
 	// position whatever is in flight (compared with the model's SET of possible transcripts).
-	Async bool `json:"async,omitempty"`
-	Amp   int  `json:"amp,omitempty"`
-	Reuse bool `json:"reuse,omitempty"`
+	// Pass: one side's message TYPE is not the other's (pass.go: empty | other | wide): a real connection carries
+	// bytes, so fields the receiver's type does not declare survive as unknown fields; messages are read back from
+	// their re-encoding. The model's messages are payload numbers: the transcript must be the one without the option.
+	Async bool   `json:"async,omitempty"`
+	Amp   int    `json:"amp,omitempty"`
+	Reuse bool   `json:"reuse,omitempty"`
+	Pass  string `json:"pass,omitempty"`
 }
 
 func (c scase) key() string {
-	return fmt.Sprintf("%s amp=%d async=%v", c.args(), c.Amp, c.Async)
+	k := fmt.Sprintf("%s amp=%d async=%v", c.args(), c.Amp, c.Async)
+	if strings.Contains(c.Cli, "w") {
+		k += " cli=" + c.Cli
+	}
+	if c.Pass != "" {
+		k += " pass=" + c.Pass
+	}
+	return k
 }
 
 func (c scase) args() string {
@@ -53,7 +66,21 @@ func (c scase) args() string {
 	if c.Reuse {
 		r = "1"
 	}
-	return c.Shape + " " + c.Out + " " + c.Srv + " " + c.Fin + " " + c.Cli + " " + r + " " + c.ctx()
+	return c.Shape + " " + c.Out + " " + c.Srv + " " + c.Fin + " " + modelCli(c.Cli) + " " + r + " " + c.ctx()
+}
+
+// modelCli drops the scheduling op `w` (the model's answer does not depend on how far the handler has unwound).
+func modelCli(cli string) string {
+	if !strings.Contains(cli, "w") {
+		return cli
+	}
+	var out []string
+	for _, op := range splitOps(cli) {
+		if op != "w" {
+			out = append(out, op)
+		}
+	}
+	return joinOps(out)
 }
 
 func (c scase) ctx() string {
@@ -205,7 +232,7 @@ func parseCli(s string) []cop {
 				panic("bad cli op " + t)
 			}
 			out = append(out, cop{K: 's', N: n})
-		case 'c', 'r', 'h', 't', 'x', 'd':
+		case 'c', 'r', 'h', 't', 'x', 'd', 'w':
 			out = append(out, cop{K: t[0]})
 		default:
 			panic("bad cli op " + t)
@@ -253,5 +280,9 @@ func mdText(ps []pair) string {
 }
 
 func (c scase) String() string {
-	return fmt.Sprintf("%s out=%s ctx=%s srv=%s fin=%s cli=%s", c.Shape, c.Out, c.ctx(), c.Srv, c.Fin, c.Cli)
+	s := fmt.Sprintf("%s out=%s ctx=%s srv=%s fin=%s cli=%s", c.Shape, c.Out, c.ctx(), c.Srv, c.Fin, c.Cli)
+	if c.Pass != "" {
+		s += " pass=" + c.Pass
+	}
+	return s
 }
